@@ -1,2 +1,4 @@
-import BevySyncModel.Lz4
-import BevySyncModel.Proofs.Lz4
+-- Root of the library: everything `lake build` should check.
+import BevySyncModel.Props.C11
+import BevySyncModel.Props.C12
+import BevySyncModel.Props.C13
